@@ -223,21 +223,25 @@ Theorem C16_shown_is_documented_outside_known :
 Proof. exact display_outside_known. Qed.
 Print Assumptions C16_shown_is_documented_outside_known.
 
-(* F13 (TAB, CR are valid XML characters and are removed) and F14 (U+FFFE / U+FFFF are not valid
-   XML characters and are kept): the full statements fail ... *)
-Theorem C16_stored_is_documented_refuted :
-  (exists s, junit_impl s <> junit_doc s) /\ (exists s, xml_text_ok (junit_impl s) = false).
-Proof.
-  split; [exists [97; 9; 98] | exists [120; 65535; 121]]; vm_compute; [discriminate | reflexivity].
-Qed.
+(* F13 in the report (TAB and CR are valid XML characters and are removed): the full statement
+   fails ... *)
+Theorem C16_stored_is_documented_refuted : exists s, junit_impl s <> junit_doc s.
+Proof. exists [97; 9; 98]. vm_compute. discriminate. Qed.
 Print Assumptions C16_stored_is_documented_refuted.
 
-(* ... and hold outside the two listed classes: the stored text is the documented one, and it
-   consists of valid XML characters only *)
+(* ... and holds outside the listed class *)
 Theorem C16_stored_is_documented_outside_known :
-  forall s, known_F13_junit s = false -> known_F14 s = false ->
-    junit_impl s = junit_doc s /\ xml_text_ok (junit_impl s) = true.
-Proof.
-  intros s H1 H2. rewrite (junit_outside_known s H1 H2). split; [reflexivity | apply junit_doc_ok].
-Qed.
+  forall s, known_F13_junit s = false -> junit_impl s = junit_doc s.
+Proof. exact junit_outside_known. Qed.
 Print Assumptions C16_stored_is_documented_outside_known.
+
+(* F14 (repaired): whatever the test printed, the stored text consists of characters that are
+   valid in XML 1.0 *)
+Theorem C16_stored_is_valid_xml : forall s, xml_text_ok (junit_impl s) = true.
+Proof. exact junit_valid. Qed.
+Print Assumptions C16_stored_is_valid_xml.
+
+(* before the repair U+FFFE / U+FFFF reached the report (regression witness) *)
+Example C16_F14_unfixed_witness :
+  xml_text_ok (junit_impl_unfixed [120; 65535; 121]) = false /\ junit_impl [120; 65535; 121] = [120; 121].
+Proof. split; vm_compute; reflexivity. Qed.
